@@ -68,9 +68,11 @@ def run(c):
               "NUL, multi-byte UTF-8 or raw bytes; extreme ints; -0, Inf, NaN payloads); ops = decode of the bare and boxed Go bytes with "
               "trailing bytes (string variant: dec, []byte variant: decb), two truncations, three one-byte mutations, the function result, for "
               "types with generated TL2 the Go WriteTL2 bytes decoded and re-encoded by the TL2 model (tl2 / tl2b), TL1-vs-TL2 same-value "
-              "(tl2x), a TL2 truncation and two TL2 mutants, and the decode of an empty/mixed value B by "
+              "(tl2x; the Go re-encoding goes through one TL2WriteContext shared with 1-3 values of other TL2 types written in random order, "
+              "whose shared-context bytes must equal their fresh-context bytes), a TL2 truncation and two TL2 mutants, and the decode of an empty/mixed value B by "
               "a string- and a []byte-variant object that has just read a fully populated value A (reused destination); every 16th case "
-              "is a frame case (empty, incompressible, compressible, equal-size, boundary, damaged frames, plus a batch of 14 weakly "
+              "is a frame case (every frame returned in the case — 3-6 incompressible/compressible payloads up front, the main payload, the weak "
+              "batch — is kept and deframed+decompressed again after all later CompressAndFrame calls; payload kinds: empty, incompressible, compressible, equal-size, boundary, damaged frames, plus a batch of 14 weakly "
               "compressible payloads each: random bodies of 64 B..64 KiB, dense at 3-5 KiB, with one 4-32 byte repeat a few bytes before "
               "the end or several scattered repeats), every other 16th a TL2 case "
               "(size codec at every form boundary and random sizes, arbitrary headers, strings of boundary lengths, and a sweep of one "
@@ -84,6 +86,7 @@ def run(c):
                       "reading into a used destination: the model's decode is a function of the bytes, so independence of the destination's previous content is an obligation on the correspondence and the Go oracle, not a theorem",
                       "basictl.CheckLengthSanity is not modelled (only changes which error is returned)",
                       "values are compared through their canonical TL1 bytes (sound by theorem tl1_injective)",
+                      "CompressAndFrame's result and WriteTL2's result are VALUES in the model (functions of the payload / of the value): that a returned frame does not change under later calls, and that a shared TL2WriteContext does not influence the bytes, are obligations on the correspondence and the Go oracle (kept frames re-checked; shared-context bytes compared with fresh-context bytes and with the model's encoding), not theorems",
                       "10 MiB payloads are checked by the Go oracle only (too long for the list-based model driver)"]
     binary = c.go_build(HARNESS)
     sup = gen(c, binary) if binary else None
